@@ -379,8 +379,8 @@ pub fn replay_value(check: &mut dyn Check, part: &str, replay: &Value, env: &mut
 
 /// Returns exit code.
 pub fn run_replay_file(check: &mut dyn Check, path: &Path) -> i32 {
-    let text = match std::fs::read_to_string(path) {
-        Ok(t) => t,
+    let text = match std::fs::read(path) {
+        Ok(t) => String::from_utf8_lossy(&t).into_owned(),
         Err(e) => {
             eprintln!("n2check: cannot read {}: {}", path.display(), e);
             return 2;
@@ -388,9 +388,9 @@ pub fn run_replay_file(check: &mut dyn Check, path: &Path) -> i32 {
     };
     let v: Value = match serde_json::from_str(&text) {
         Ok(v) => v,
-        Err(e) => {
-            eprintln!("n2check: bad replay file: {}", e);
-            return 2;
+        Err(_) => {
+            // not one of our replay files: a raw input (e.g. a libFuzzer artifact)
+            json!({"part": "raw", "replay": {"raw_bytes": std::fs::read(path).unwrap_or_default()}})
         }
     };
     let part = v["part"].as_str().unwrap_or("").to_string();
